@@ -265,11 +265,15 @@ def MemSys.run (s : MemSys) : List Op → List (Res × MemSys)
     | .err c s' => (.err c, s') :: s'.run rest
     | .panic p => [(.panic p, s)]
 
-/-- State after the run (the state at the panic if the run panicked). -/
-def MemSys.final (s : MemSys) (ops : List Op) : MemSys :=
-  match (s.run ops).getLast? with
-  | some (_, s') => s'
-  | none => s
+/-- State after the run (the state at the panic if the run panicked); it is the last state of
+    `run` (`MemSys.final_eq_last`). -/
+def MemSys.final (s : MemSys) : List Op → MemSys
+  | [] => s
+  | op :: rest =>
+    match s.step op with
+    | .ok s' => s'.final rest
+    | .err _ s' => s'.final rest
+    | .panic _ => s
 
 /-- Every operation of the run returned `Ok`. -/
 def MemSys.AllOk (s : MemSys) : List Op → Prop
@@ -278,6 +282,33 @@ def MemSys.AllOk (s : MemSys) : List Op → Prop
     match s.step op with
     | .ok s' => s'.AllOk rest
     | _ => False
+
+instance MemSys.decAllOk : (ops : List Op) → (s : MemSys) → Decidable (s.AllOk ops)
+  | [], _ => isTrue trivial
+  | op :: rest, s =>
+    match h : s.step op with
+    | .ok s' =>
+      have := MemSys.decAllOk rest s'
+      decidable_of_iff (s'.AllOk rest) (by simp only [MemSys.AllOk, h])
+    | .err _ _ => isFalse (by simp only [MemSys.AllOk, h, not_false_eq_true])
+    | .panic _ => isFalse (by simp only [MemSys.AllOk, h, not_false_eq_true])
+
+/-- The contract the callers of these operations have to respect (and do respect:
+    `TransformStream::write` shifts by `consumed < chunk.len()`, transform_stream/mod.rs:150-152;
+    `Stack::pop_up_to` drains from an index found by `rposition`, stack.rs:293-301; a Rust slice is
+    never longer than `isize::MAX`). -/
+def Op.Contract (s : MemSys) : Op → Prop
+  | .append bs => bs.length ≤ isizeMax
+  | .initWith bs => bs.length ≤ isizeMax
+  | .shift k => k ≤ s.arena.len
+  | .push => True
+  | .drainTo k => k ≤ s.vec.len
+
+/-- Number of bytes an operation brings in. -/
+def Op.incoming : Op → Nat
+  | .append bs => bs.length
+  | .initWith bs => bs.length
+  | _ => 0
 
 /-- Bytes really held: capacity of the arena plus capacity of the stack in bytes. -/
 def MemSys.allocated (s : MemSys) : Nat := s.arena.cap + s.vec.cap * s.vec.itemSize
